@@ -196,12 +196,17 @@ func SelectRecFields(t *Term) *Term {
 	for _, a := range t.Args {
 		n.Args = append(n.Args, SelectRecFields(a))
 	}
+	if n.Op == "field" && len(n.Args) == 1 && n.Args[0].Op == "addr" && len(n.Args[0].Args) == 1 && n.Args[0].Args[0].Op == "rec" {
+		// (&T{f: v}).f
+		n = &Term{Op: n.Op, Val: n.Val, Type: n.Type, Src: n.Src, Args: []*Term{n.Args[0].Args[0]}}
+	}
 	if n.Op == "field" && len(n.Args) == 1 && n.Args[0].Op == "rec" {
 		for _, f := range n.Args[0].Args {
 			if f.Op == "fld" && f.Val == n.Val && len(f.Args) == 1 {
 				return f.Args[0]
 			}
 		}
+		return mk("zero", "") // a record term lists the non-zero fields only
 	}
 	return n
 }
@@ -229,6 +234,9 @@ func StripFullSlice(t *Term) *Term {
 // Field builds t.f1.f2…
 func (t *Term) Field(path ...string) *Term {
 	for _, f := range path {
+		if t.Op == "addr" && len(t.Args) == 1 && t.Args[0].Op == "rec" {
+			t = t.Args[0]
+		}
 		if t.Op == "rec" {
 			sel := (*Term)(nil)
 			for _, fl := range t.Args {
@@ -240,6 +248,8 @@ func (t *Term) Field(path ...string) *Term {
 				t = sel
 				continue
 			}
+			t = mk("zero", "") // a record term lists the non-zero fields only
+			continue
 		}
 		t = mk("field", f, t)
 	}
@@ -385,6 +395,8 @@ type Eval struct {
 	idx    map[ssa.Instruction]int
 	pidx   map[*ssa.Parameter]int
 	depth  int
+	// errAtoms: "error of this helper call == nil" atom -> the call (Strengthen)
+	errAtoms map[string]*ssa.Call
 }
 
 var evalCache = map[*ssa.Function]*Eval{}
@@ -1090,6 +1102,11 @@ var pureExternal = map[string]bool{
 	"strings.TrimPrefix": true, "strings.TrimSuffix": true, "strings.ToLower": true, "strings.ToUpper": true,
 	"encoding/hex.DecodeString": true, "encoding/hex.EncodeToString": true, "encoding/json.Marshal": true,
 	"pkgerrors.Cause": true, "errors.Is": true, "errors.Unwrap": true,
+	// error construction: allocates, but has no effect a caller can observe other than the returned value
+	"pkgerrors.Wrap": true, "pkgerrors.Wrapf": true, "pkgerrors.New": true, "pkgerrors.Errorf": true,
+	"pkgerrors.WithMessage": true, "pkgerrors.WithStack": true, "errors.New": true, "fmt.Errorf": true, "fmt.Sprintf": true,
+	"time.Parse": true, "(time.Time).Format": true, "(time.Time).UTC": true, "bytes.Equal": true, "bytes.HasPrefix": true,
+	"strings.HasPrefix": true, "encoding/hex.Decode": true, "encoding/hex.EncodedLen": true, "encoding/hex.DecodedLen": true,
 }
 
 // inlineTuple: result idx of a call of an in-module helper with several results. The helper must have no effect
